@@ -10,6 +10,7 @@ import (
 	"os"
 	"path"
 	"runtime/debug"
+	"sync"
 	"time"
 
 	"github.com/rs/zerolog/log"
@@ -89,17 +90,45 @@ func newGenerateCommand() *cobra.Command {
 
 // dedup fsnotify events
 func dedupLoop(configArgs map[string]string, w *fsnotify.Watcher, completedChannel chan<- error) {
+	// The debounce timer calls regenerate on a new goroutine each time it fires. Only one
+	// regeneration runs at a time; a change that arrives while it runs is remembered and served
+	// by another run as soon as it completes, so that the last run always starts after the
+	// last change (a slow run can no longer be overtaken by a later, faster one and leave its
+	// stale output behind).
+	var mutex sync.Mutex
+	running := false
+	pending := false
+
 	regenerate := func() {
-		dirsToWatch := generateInWatchMode(configArgs)
-		if dirsToWatch != nil && len(dirsToWatch) > len(w.WatchList()) {
-			for _, dir := range dirsToWatch {
-				if err := w.Add(dir); err != nil {
-					completedChannel <- err
-					return
+		mutex.Lock()
+		if running {
+			pending = true
+			mutex.Unlock()
+			return
+		}
+		running = true
+		mutex.Unlock()
+
+		for {
+			dirsToWatch := generateInWatchMode(configArgs)
+			if dirsToWatch != nil && len(dirsToWatch) > len(w.WatchList()) {
+				for _, dir := range dirsToWatch {
+					if err := w.Add(dir); err != nil {
+						completedChannel <- err
+						return
+					}
 				}
 			}
-		}
 
+			mutex.Lock()
+			if !pending {
+				running = false
+				mutex.Unlock()
+				return
+			}
+			pending = false
+			mutex.Unlock()
+		}
 	}
 
 	regenerate()
